@@ -21,14 +21,15 @@ theorem relBlk_eq_chunkBlk (W : Win) (hd : W.wst = .plus ∨ W.wst = .minus) (b 
   unfold Lift.relBlk chunkBlk
   rcases hd with h | h <;> simp [h]
 
-theorem chunkDown_explicit (init : Location) (hwf : WF init) (W : Win) (hW : winOk W = true) :
+theorem chunkDown_explicit (init : Location) (hwf : WF init) (hne : init ≠ .empty) (W : Win) (hW : winOk W = true) :
     chunkDown init W.w W.wst = .ok (chunkLocOf init W) := by
   obtain ⟨hd, hwl⟩ := winOk_unpack W hW
   have hlen : ¬ (W.w.len = 0) := by unfold Blk.len; omega
+  have hne' : ¬ ((init == Location.empty) = true) := by simpa using hne
   unfold chunkDown chunkLocOf
-  rw [if_neg hlen]
+  rw [if_neg hlen, if_neg hne']
   cases init with
-  | empty => simp [relativeToSingle, pure, Except.pure]
+  | empty => exact absurd rfl hne
   | single b st =>
     have hb : b.1 ≤ b.2 := hwf
     simp only [relativeToSingle, Lift.clip_eq]
